@@ -171,6 +171,7 @@ def run(ctx):
 
     class_level_order(ctx, prog)
     heap_orientation(ctx, prog)
+    heap_exit_rule(ctx, prog, 'C12-R8')
     R5 = 'C12-R5'
     ctx.rule(R5, 'an absent LIMIT is not a size: the builder hands TopN / Limit a huge sentinel when the query has no LIMIT, so no '
                  'allocation in those executors may be sized by `limit` (with_capacity*, reserve, vec![_; n]) unless the amount went '
@@ -291,6 +292,46 @@ def heap_orientation(ctx, prog):
                    what=f'{b.root.rsplit("::", 1)[-1]} tests a heap comparison as `{verdict}` where every other step asks "greater?": the heap '
                         'follows the wrong child and rows of three or more row-sets come out of order')
     ctx.floor(R7, n, 3, 'compare_in_heap call sites')
+
+
+def heap_exit_rule(ctx, prog, rid):
+    """shared by C12 and C07: the sift-down of MergeIterator may stop only after looking at the smaller of BOTH children"""
+    ctx.rule(rid, 'MergeIterator::replace_pending_data may leave the sift-down only when the moved element is not greater than the smaller '
+                  'child: the comparison that decides an exit takes as its second operand the selected child (a local that is assigned '
+                  'from the left and from the right child), never a fixed heap position; comparing with one child only lets the other '
+                  'child stay above a smaller key and the merged stream leaves key order from three inputs on')
+    b = next((x for n, x in prog.bodies.items() if n.endswith('merge_iterator::MergeIterator::replace_pending_data')), None)
+    if not ctx.anchor(rid, 'MergeIterator::replace_pending_data', b is not None):
+        return
+    ctx.functions_analysed.add(b.name)
+    cmps = [c for c in b.calls if (c.fn or '').endswith('MergeIterator::compare_in_heap')]
+    if not ctx.anchor(rid, 'replace_pending_data: compare_in_heap', cmps):
+        return
+    rets = set(b.return_blocks())
+    others = {c.bb for c in cmps}
+    n_exit = 0
+    for c in cmps:
+        # can this comparison's outcome lead to a return without another comparison?
+        reach = b.reachable_from(b.succs[c.bb], avoid=others - {c.bb})
+        if not (reach & rets):
+            continue
+        n_exit += 1
+        a2 = c.args[2] if len(c.args) > 2 else None
+        fixed = a2 is None or a2['k'] == 'const'
+        two_sources = False
+        if not fixed:
+            defs = [d for d in local_defs(b, a2['pl']['l'])]
+            srcs = set()
+            for l in origin_locals(b, a2['pl']['l'], depth=3):
+                srcs |= {bb for bb, k, p in local_defs(b, l)}
+            two_sources = len({bb for l in origin_locals(b, a2['pl']['l'], depth=2) for bb, k, p in local_defs(b, l) if k == 'assign'}) >= 2
+        ctx.ob(rid, f'replace_pending_data·exit-compares-the-selected-child·bb{"" if (not fixed and two_sources) else "-fixed-position"}',
+               (not fixed) and two_sources,
+               f'comparison at block {c.bb} can end the sift-down; its second operand is ' +
+               ('a fixed heap position' if fixed else ('the selected child' if two_sources else 'a single child')), [site(b, c.bb)],
+               what='MergeIterator::replace_pending_data stops sifting after comparing with one fixed child: with three or more inputs a '
+                    'smaller key stays below the root and the merged rows (compaction output, sorted scan) leave key order')
+    ctx.floor(rid, n_exit, 1, 'comparisons that can end the sift-down')
 
 
 PASS_THROUGH = ('Proj', 'Filter', 'Window', 'Limit', 'MergeJoin', 'SortAgg', 'Order', 'TopN')
